@@ -339,7 +339,7 @@ func ckksEncoderTarget() *Target {
 		}}
 	}
 	t := &Target{
-		Name: "ckks.Encoder", Envs: []string{"ckks", "ckks-prec"},
+		Name: "ckks.Encoder", Envs: []string{"ckks", "ckks-prec", "ckks-ci"},
 		Type: reflect.TypeOf(&ckks.Encoder{}),
 		New: func(e *Env) interface{} {
 			if e.Prec != 0 {
